@@ -727,7 +727,7 @@ def run_bounded(prop, tier, seed, names=None):
     """bounded stand-ins / witness searches (native harness linking the real crates); returns list of result dicts"""
     props = load_props()
     out = []
-    todo = [{"name": n} for n in names] if names is not None else props.get(prop, {}).get("bounded", [])
+    todo = [(n if isinstance(n, dict) else {"name": n}) for n in names] if names is not None else props.get(prop, {}).get("bounded", [])
     for b in todo:
         exe = os.path.join(VERIF, "bounded", "target", "release", "bounded")
         build_bounded()
@@ -738,6 +738,11 @@ def run_bounded(prop, tier, seed, names=None):
         except Exception:
             raise Undecided(f"bounded stand-in {b['name']} produced no result: rc={p.returncode} {p.stderr[-400:]}")
         js["name"] = b["name"]
+        if b.get("cases"):
+            # a harness shared between properties labels each comparison with a case; only this property's cases count here
+            js["violations_of_other_properties"] = [v for v in js.get("violations", []) if v.get("case") not in b["cases"]]
+            js["violations"] = [v for v in js.get("violations", []) if v.get("case") in b["cases"]]
+            js["cases"] = b["cases"]
         out.append(js)
     return out
 
@@ -850,7 +855,7 @@ def decide(prop, tier, seed):
 
     # ---- witness search: a concrete failing input on the real crate (replay), DESIGN.md §3.2
     witness_runs = []
-    wnames = [w for w in pinfo.get("witness", []) if w not in {b.get("name") for b in bounded}]
+    wnames = [w for w in pinfo.get("witness", []) if (w["name"] if isinstance(w, dict) else w) not in {b.get("name") for b in bounded}]
     need_witness = any(v[1].get("witness") is None for v in violations) or (reasons and not violations)
     if wnames and need_witness:
         try:
